@@ -244,3 +244,193 @@ def search(pattern, chars):
 def fullmatch(pattern, chars):
     tree = parse(pattern) if isinstance(pattern, str) else pattern
     return ends(tree, chars, 0, True).get(len(chars), False)
+
+
+# ---------------------------------------------------------------------------------------------------
+# matching with capture groups, in the engine's priority order (leftmost-first: alternation left to right,
+# greedy = more first, lazy = fewer first).  `shapes` yields every way the pattern can match the subject from
+# position 0 as (condition, captures) in priority order; the regex crate's `captures` returns the first
+# shape whose condition holds.  Bounded by the (concrete) subject length.
+
+
+def strip_verbose(pattern):
+    """(?x): drop unescaped whitespace and #-comments"""
+    if not pattern.startswith("(?x)"):
+        return pattern
+    out = ""
+    i = 4
+    in_class = False
+    while i < len(pattern):
+        c = pattern[i]
+        if c == "\\" and i + 1 < len(pattern):
+            out += pattern[i:i + 2]
+            i += 2
+            continue
+        if c == "[":
+            in_class = True
+        elif c == "]":
+            in_class = False
+        if not in_class and c in " \t\r\n":
+            i += 1
+            continue
+        if not in_class and c == "#":
+            while i < len(pattern) and pattern[i] != "\n":
+                i += 1
+            continue
+        out += c
+        i += 1
+    return out
+
+
+def parse_captures(pattern):
+    """like parse(), but numbers capture groups and records laziness: nodes P('cap', idx, inner), P('star', inner, lazy)…"""
+    pattern = strip_verbose(pattern)
+    pos = 0
+    n = len(pattern)
+    counter = [0]
+
+    def peek():
+        return pattern[pos] if pos < n else None
+
+    def alt():
+        nonlocal pos
+        branches = [concat()]
+        while peek() == "|":
+            pos += 1
+            branches.append(concat())
+        return branches[0] if len(branches) == 1 else P("alt", branches)
+
+    def concat():
+        items = []
+        while pos < n and peek() not in "|)":
+            items.append(repeat())
+        return P("cat", items)
+
+    def repeat():
+        nonlocal pos
+        a = atom()
+        while peek() in ("*", "+", "?"):
+            op = peek()
+            pos += 1
+            lazy = False
+            if peek() == "?":
+                pos += 1
+                lazy = True
+            a = P({"*": "star", "+": "plus", "?": "opt"}[op], a, lazy)
+        if peek() == "{":
+            raise Unsupported("counted repetition in regex")
+        return a
+
+    def atom():
+        nonlocal pos
+        c = peek()
+        if c == "(":
+            pos += 1
+            if pattern.startswith("?:", pos):
+                pos += 2
+                inner = alt()
+                if peek() != ")":
+                    raise Unsupported("unbalanced group")
+                pos += 1
+                return P("group", inner)
+            if peek() == "?":
+                raise Unsupported("regex group flags")
+            counter[0] += 1
+            idx = counter[0]
+            inner = alt()
+            if peek() != ")":
+                raise Unsupported("unbalanced group")
+            pos += 1
+            return P("cap", idx, inner)
+        # reuse the simple atom parser for everything else
+        sub = _atom_text()
+        return parse(sub)
+
+    def _atom_text():
+        nonlocal pos
+        c = peek()
+        start = pos
+        if c == "[":
+            j = pos + 1
+            if j < n and pattern[j] == "^":
+                j += 1
+            if j < n and pattern[j] == "]":
+                j += 1
+            while j < n and pattern[j] != "]":
+                j += 2 if pattern[j] == "\\" else 1
+            pos = j + 1
+        elif c == "\\":
+            pos += 2
+        else:
+            pos += 1
+        return pattern[start:pos]
+    tree = alt()
+    if pos != n:
+        raise Unsupported("regex not fully parsed: %r at %d" % (pattern, pos))
+    return tree, counter[0]
+
+
+def _walk(node, chars, i, caps, cond, k):
+    """generator of (pos, caps, cond) in priority order; k = continuation is applied by the caller"""
+    n = len(chars)
+    kind = node.kind
+    if kind in ("lit", "any", "set", "bol", "eol"):
+        for j, c in ends(node, chars, i, cond).items():
+            if c is not False:
+                yield j, caps, c
+        return
+    if kind == "group":
+        yield from _walk(node.a[0], chars, i, caps, cond, k)
+        return
+    if kind == "cap":
+        idx, inner = node.a
+        for j, caps2, c in _walk(inner, chars, i, caps, cond, k):
+            caps3 = dict(caps2)
+            caps3[idx] = (i, j)
+            yield j, caps3, c
+        return
+    if kind == "cat":
+        def rec(items, pos_, caps_, cond_):
+            if not items:
+                yield pos_, caps_, cond_
+                return
+            for j, c2, cc in _walk(items[0], chars, pos_, caps_, cond_, k):
+                yield from rec(items[1:], j, c2, cc)
+        yield from rec(list(node.a[0]), i, caps, cond)
+        return
+    if kind == "alt":
+        for br in node.a[0]:
+            yield from _walk(br, chars, i, caps, cond, k)
+        return
+    if kind == "opt":
+        inner, lazy = node.a[0], (node.a[1] if len(node.a) > 1 else False)
+        if lazy:
+            yield i, caps, cond
+            yield from _walk(inner, chars, i, caps, cond, k)
+        else:
+            yield from _walk(inner, chars, i, caps, cond, k)
+            yield i, caps, cond
+        return
+    if kind in ("star", "plus"):
+        inner, lazy = node.a[0], (node.a[1] if len(node.a) > 1 else False)
+
+        def rep(pos_, caps_, cond_, count):
+            can_stop = count >= (1 if kind == "plus" else 0)
+            if lazy and can_stop:
+                yield pos_, caps_, cond_
+            for j, c2, cc in _walk(inner, chars, pos_, caps_, cond_, k):
+                if j == pos_:
+                    continue
+                yield from rep(j, c2, cc, count + 1)
+            if not lazy and can_stop:
+                yield pos_, caps_, cond_
+        yield from rep(i, caps, cond, 0)
+        return
+    raise Unsupported("regex node %s" % kind)
+
+
+def shapes(pattern, chars, anchored_start=True):
+    """all matches starting at position 0 (the expectation regex is ^-anchored) in priority order"""
+    tree, ngroups = parse_captures(pattern) if isinstance(pattern, str) else pattern
+    for j, caps, cond in _walk(tree, chars, 0, {}, True, None):
+        yield cond, caps, ngroups
